@@ -258,6 +258,20 @@ static void inpl_one(int f, const char *in, int k)
         for (int i = 0; i < 16; i++) if (blk[i] != 0xC3) { FAIL(FN[f], "invariant:byte-before-start-touched", shape, "guard byte at offset %d before the string changed", i - 16); break; }
         for (size_t i = 16 + n + 1; i < sizeof blk; i++) if (blk[i] != 0xC3) { FAIL(FN[f], "invariant:byte-after-terminator-touched", shape, "guard byte %zu after the terminator changed", i - 16 - n); break; }
     }
+    /* variant 3: the string starts at every offset of an 8-aligned block, between neighbours that every one of the maps would change ('Q', 'q', 0x01) */
+    if (f != F_CONDENSE) {
+        for (int off = 0; off < 8; off++) {
+            unsigned char blk[16 + 8 + 32 + 16] __attribute__((aligned(8))), pat[sizeof blk];
+            for (size_t i = 0; i < sizeof blk; i++) pat[i] = i % 3 == 0 ? 'Q' : (i % 3 == 1 ? 'q' : 0x01);
+            memcpy(blk, pat, sizeof blk);
+            char *s = (char *) blk + 16 + off;
+            memcpy(s, in, n + 1);
+            char *r = call(f, s, k);
+            if (r && strcmp(r, exp)) { esc(r, e1, sizeof e1); esc(exp, e2, sizeof e2); FAIL(FN[f], "model:content", shape, "string at offset %d of an aligned block: got \"%s\", reference \"%s\"", off, e1, e2); }
+            for (size_t i = 0; i < (size_t) (16 + off); i++) if (blk[i] != pat[i]) { FAIL(FN[f], "invariant:byte-before-start-touched", shape, "the byte %zu before a string at offset %d of an aligned block changed from 0x%02x to 0x%02x", 16 + off - i, off, pat[i], blk[i]); break; }
+            for (size_t i = 16 + (size_t) off + n + 1; i < sizeof blk; i++) if (blk[i] != pat[i]) { FAIL(FN[f], "invariant:byte-after-terminator-touched", shape, "byte %zu after the terminator of a %zu-character string at offset %d of an aligned block changed from 0x%02x to 0x%02x", i - 16 - off - n, n, off, pat[i], blk[i]); break; }
+        }
+    }
 }
 static void inpl_case_fn(uint64_t idx, void *ctx)
 {
